@@ -17,4 +17,9 @@ var fixedOps = []string{
 	"rt 2 list int sl ptr k int 2 nilptr ptr i int 1 slice ptr k int", "rt 3 list int sl ptr k int 2 nilptr ptr i int 1 slice ptr k int",
 	"rt 4 tuple 2 int text ifs 2 nilptr s 41 struct 2 ptr k int string", "rt 4 tuple 2 int text ifs 2 nil s 41 struct 2 ptr k int string",
 	"rt 4 map text int map string k int 2 s 61 i int 1 s 62 i int 2 map string k int",
+	// round trips through the repaired encoders (KF-C12-2, -4, -6, -7)
+	"rtsame 4 bigint big 9223372036854775807 big", "rtsame 4 counter big -9223372036854775808 big", "rtsame 4 bigint big 9223372036854775808 big",
+	"rt 4 date t -1 999999999 time", "rt 4 date i int64 -1 time",
+	"rt 4 tuple 2 blob text st 2 bnil s 41 struct 2 bytes string", "rt 4 tuple 2 blob text ifs 2 bnil s 41 struct 2 ptr bytes string",
+	"rt 4 tuple 2 blob blob arr bytes 2 b 41 bnil array 2 bytes", "rt 4 tuple 1 int nil struct 1 ptr k int",
 }
